@@ -2,12 +2,12 @@ package h
 
 import (
 	"bytes"
-	"encoding/json"
 	"context"
 	"crypto"
 	"crypto/ecdsa"
 	"crypto/rsa"
 	"crypto/sha256"
+	"encoding/json"
 	"errors"
 	"fmt"
 	"io"
@@ -90,12 +90,12 @@ func (e *eofBody) Read(p []byte) (int, error) {
 func (e *eofBody) Close() error { return nil }
 
 type c15RT struct {
-	w       *world.World
-	handler http.Handler
-	cur     map[string]*c15Op
-	planned map[string]*c15Attempt // task -> attempt whose backend fault is pending
-	quiet   bool                   // faults stopped
-	bias    int
+	w        *world.World
+	handler  http.Handler
+	cur      map[string]*c15Op
+	planned  map[string]*c15Attempt // task -> attempt whose backend fault is pending
+	quiet    bool                   // faults stopped
+	bias     int
 	usageMsg string
 }
 
